@@ -8,6 +8,7 @@ import re
 from vlib import core, sx
 from checks import enginelib as E
 from checks import histlib as H
+from vlib import proggen as pg
 
 try:
     THEOREMS = re.findall(r"^Theorem\s+(\w+)", open(os.path.join(core.COQ, "Props", "C11.v")).read(), re.M)
@@ -123,10 +124,12 @@ SOLVERS = [("slg", H.SLG), ("rec", H.REC)]
 def solver_part(ctx):
     rng = ctx.rng
     progs = H.programs(rng, ctx.n(3, 20), goals_per=(2, 1, 1))
+    progs = [(p, t, g, gt, SOLVERS, False) for (p, t, g, gt) in progs]
+    progs += [(p, pg.to_text(p), g, [pg.goal_text(x) for x in g], cfgs, True) for (p, g, cfgs) in H.sweep_programs()]
     # phase 1: clean limited runs (callback count) and fresh answers
     c1, i1 = [], []
-    for pi, (p, text, goals, gts) in enumerate(progs):
-        for sname, solver in SOLVERS:
+    for pi, (p, text, goals, gts, solvers, sweep_all) in enumerate(progs):
+        for sname, solver in solvers:
             for gi, gt in enumerate(gts):
                 i1.append((pi, sname, gi))
                 c1.append(H.case(text, solver, [H.limited_step(gt, [])]))
@@ -138,14 +141,14 @@ def solver_part(ctx):
             calls[key] = r[0]["sc"]
     # phase 2: every interruption index (quick: a stride), then all goals unlimited
     c2, i2 = [], []
-    for pi, (p, text, goals, gts) in enumerate(progs):
-        for sname, solver in SOLVERS:
+    for pi, (p, text, goals, gts, solvers, sweep_all) in enumerate(progs):
+        for sname, solver in solvers:
             for gi, gt in enumerate(gts):
                 K = calls.get((pi, sname, gi))
                 if K is None:
                     continue
                 ks = list(range(min(K, ctx.n(40, 60))))
-                if ctx.quick and len(ks) > 5:
+                if ctx.quick and len(ks) > 5 and not sweep_all:
                     ks = ks[:2] + rng.sample(ks[2:-1], 2) + ks[-1:]
                 for k in ks:
                     for step in (H.limited_step(gt, [k]), H.limited_from_step(gt, k)):
@@ -154,7 +157,7 @@ def solver_part(ctx):
     r2, outs = H.run(c2, timeout=ctx.n(900, 3000))
     per_pair = {}
     for (pi, sname, gi, k), r, raw, cs in zip(i2, r2, outs, c2):
-        p, text, goals, gts = progs[pi]
+        p, text, goals, gts, _solvers, _sweep = progs[pi]
         pair = per_pair.setdefault((pi, sname), {"viol": None, "known": None, "incon": 0, "n": 0})
         if r is None:
             pair["incon"] += 1
@@ -172,11 +175,11 @@ def solver_part(ctx):
             if not ok and pair["viol"] is None:
                 hist = order[:j + 1]
                 cls = None
-                if sname == "slg" and H.f7_class(p, goals, hist):
+                if sname.startswith("slg") and H.f7_class(p, goals, hist):
                     cls = "F7-slg-coinductive-cycle"
-                elif sname == "slg" and H.f16_class(p, goals[g]):
+                elif sname.startswith("slg") and H.f16_class(p, goals[g]):
                     cls = "F16-slg-answer-order"
-                elif sname == "rec" and H.mixed_class(p, goals):
+                elif sname.startswith("rec") and H.mixed_class(p, goals):
                     cls = "F27-mixed-cycle"
                 rec = {"kind": "solver-interrupt", "program": text, "solver": sname, "interrupted_goal": gts[gi], "k": k,
                        "step": j, "goal": gts[g], "answer": sx.to_sexp(a), "fresh_answer": sx.to_sexp(fa),
